@@ -6,9 +6,11 @@ cd /repo || exit 2
 if ! git diff --quiet; then echo "/repo dirty"; exit 2; fi
 git apply "$patch" || { echo "patch does not apply"; exit 2; }
 cd /verif
+rm -rf /tmp/evidence.bak && cp -r evidence /tmp/evidence.bak
 for p in "$@"; do
   echo "=== $p"
   timeout 1500 python3 tools/check.py $p --tier quick 2>/dev/null | grep -E "VIOLATION|KNOWN|PASS|FAIL" | cut -c1-300
 done
 git -C /repo checkout -- . 
+rm -rf evidence && mv /tmp/evidence.bak evidence
 git -C /repo status --short | head -3
